@@ -4,6 +4,7 @@ import (
 	"bytes"
 	"encoding/binary"
 	"fmt"
+	"os"
 	"runtime/debug"
 
 	"free5gclib/nas/security"
@@ -33,7 +34,7 @@ func init() {
 			return 300 * 8
 		},
 		Batch:      600,
-		Init:       sec.SelfTest,
+		Init:       c07Init,
 		Run:        runC07,
 		Exhaustive: func(string) bool { return false },
 	})
@@ -53,8 +54,57 @@ func c07LongLengths() []int {
 	return append(out, 3000, 5000, 12289, 20000, 40000, 65535+7, 66000)
 }
 
+// c07Init: the oracle's self-test, then THE FIRST CALLS OF THIS PROCESS into the library: an all-zero key with COUNT,
+// BEARER and DIRECTION zero (the zero value of anything the library might remember between calls), NEA1 first in one
+// process and NIA1 first in the next. What they return is judged by the first case the process runs.
+var c07FirstCalls string
+
+func c07Init() error {
+	if err := sec.SelfTest(); err != nil {
+		return err
+	}
+	var key [16]byte
+	msg := make([]byte, 40)
+	order := []int{0, 1, 2, 3}
+	if os.Getpid()%2 == 1 {
+		order = []int{1, 0, 3, 2}
+	}
+	for _, k := range order {
+		switch k {
+		case 0:
+			got := append([]byte(nil), msg...)
+			err := security.NASEncrypt(security.AlgCiphering128NEA1, key, 0, 0, 0, got)
+			if want, _ := sec.NEA(1, key[:], 0, 0, 0, msg); err != nil || !bytes.Equal(got, want) {
+				c07FirstCalls += fmt.Sprintf("NEA1 with an all-zero key, COUNT 0, BEARER 0, DIRECTION 0 as the first SNOW 3G use of a process: %x (err %v), 128-EEA1 gives %x; ", got, err, want)
+			}
+		case 1:
+			got, err := security.NASMacCalculate(security.AlgIntegrity128NIA1, key, 0, 0, 0, msg)
+			if want, _ := sec.NIA(1, key[:], 0, 0, 0, msg); err != nil || !bytes.Equal(got, want) {
+				c07FirstCalls += fmt.Sprintf("NIA1 with an all-zero key, COUNT 0, BEARER 0, DIRECTION 0 as the first SNOW 3G use of a process: %x (err %v), 128-EIA1 gives %x; ", got, err, want)
+			}
+		case 2:
+			got := append([]byte(nil), msg...)
+			err := security.NASEncrypt(security.AlgCiphering128NEA2, key, 0, 0, 0, got)
+			if want, _ := sec.NEA(2, key[:], 0, 0, 0, msg); err != nil || !bytes.Equal(got, want) {
+				c07FirstCalls += fmt.Sprintf("NEA2 with an all-zero key and zero parameters as the first call of a process: %x (err %v), 128-EEA2 gives %x; ", got, err, want)
+			}
+		case 3:
+			got, err := security.NASMacCalculate(security.AlgIntegrity128NIA2, key, 0, 0, 0, msg)
+			if want, _ := sec.NIA(2, key[:], 0, 0, 0, msg); err != nil || !bytes.Equal(got, want) {
+				c07FirstCalls += fmt.Sprintf("NIA2 with an all-zero key and zero parameters as the first call of a process: %x (err %v), 128-EIA2 gives %x; ", got, err, want)
+			}
+		}
+	}
+	return nil
+}
+
 func runC07(c *fw.Case) (o fw.Outcome) {
 	r := c.R
+	if c07FirstCalls != "" {
+		o.Nontrivial, o.Digest = true, fw.HashS("first-calls", fmt.Sprint(c.Idx))
+		o.Fail("first-call-of-a-process", "%s", c07FirstCalls)
+		return
+	}
 	L := 300
 	if c.Thorough() {
 		L = 2100
